@@ -34,6 +34,15 @@ type checkDef struct {
 	Overlay  bool // build package snaps from the AST-instrumented overlay (engine C)
 	RacePart bool // additionally run workers of a -race build with VERIF_RACE_BUILD=1 and merge them
 	RaceN    int  // number of workers of the race part
+	Extra    []extraPart
+}
+
+// extraPart is an additional group of workers from another engine package whose
+// partial results are merged into the same verdict and evidence.
+type extraPart struct {
+	Pkg string
+	N   int
+	Env []string
 }
 
 var defs = map[string]checkDef{
@@ -49,7 +58,7 @@ var defs = map[string]checkDef{
 	"C20": {Engine: "B", Pkg: "./engb", MinEvals: 100},
 	"C11": {Engine: "B", Pkg: "./engb", MinEvals: 100},
 	"C06": {Engine: "C", Pkg: "./engc", MinEvals: 300, Overlay: true, RacePart: true, RaceN: 8},
-	"C12": {Engine: "A", Pkg: "./enga", MinEvals: 30000, RacePart: true, RaceN: 4},
+	"C12": {Engine: "A", Pkg: "./enga", MinEvals: 30000, RacePart: true, RaceN: 4, Extra: []extraPart{{Pkg: "./engb", N: 2, Env: []string{"VERIF_PART=defaults"}}}},
 	"C14": {Engine: "A", Pkg: "./enga", MinEvals: 1000},
 	"C15": {Engine: "A", Pkg: "./enga", MinEvals: 1000},
 	"C16": {Engine: "A", Pkg: "./enga", MinEvals: 1000},
@@ -306,6 +315,18 @@ func run(prop, tier string, seed int64, onlyCase int, writeEvidence bool) int {
 			n = 1
 		}
 		results = append(results, runWorkers(rbin, prop, tier, seed, n, onlyCase, []string{"VERIF_RACE_BUILD=1"})...)
+	}
+	if onlyCase < 0 {
+		for _, x := range def.Extra {
+			xd := def
+			xd.Pkg, xd.Overlay = x.Pkg, false
+			xbin, err := build(xd, false)
+			if err != nil {
+				fmt.Println(err)
+				die(2, "INCONCLUSIVE property=%s build of %s failed", prop, x.Pkg)
+			}
+			results = append(results, runWorkers(xbin, prop, tier, seed, x.N, -1, x.Env)...)
+		}
 	}
 	return merge(prop, tier, seed, def, results, start, buildS, onlyCase, writeEvidence)
 }
